@@ -110,8 +110,14 @@ func checkVariants(c Case) *pk.Failure {
 	base.Modules[c.Entry] = p2.Texts[c.Entry]
 	b2 := px.Pool().Exec(base.Request("vm"))
 	if b2.Crash != "" || b2.Hang || !b2.Accepted || behaviour(b2.Run("vm")) != want {
-		pk.Discard("untransformed-roundtrip-fails(C19)")
-		return nil
+		if pk.GateOpen("printer-roundtrip") {
+			// an open finding of the printers (C19's subject) would stop every C20 run here
+			pk.Discard("untransformed-roundtrip-fails(C19)")
+			return nil
+		}
+		// Variants are TEXT: a program whose untransformed print is not accepted or behaves differently has no
+		// acceptable variant at all (C19 reports the printer; for C20 it is a violation as well).
+		return pk.Failf("variants", "untransformed-print:"+firstProblem(b2), "the analysed program, printed without any rewrite, is not accepted or behaves differently (seed %d)\n%s--- printed\n%s\n--- original\n%s", c.Seed, diagText(b2), p2.Texts[c.Entry], px.ProgText(c.ProgCase))
 	}
 	// transform
 	treq := &sb.Request{Op: "transform", Modules: c.Modules, Entry: c.Entry, Seed: c.Seed, Passes: c.Passes, Via: c.Via}
